@@ -199,6 +199,7 @@ def main():
     ap.add_argument("--tier", default="quick")
     ap.add_argument("--out", default=os.path.join(HERE, "tools", "selftest_results.json"))
     ap.add_argument("--skip-tests", action="store_true")
+    ap.add_argument("--replay-test", action="store_true")
     a = ap.parse_args()
     sel = M
     if a.only:
@@ -243,6 +244,14 @@ def main():
                     keys = [l.strip()[:200] for l in out.splitlines() if l.strip().startswith("witness key=")]
                     if rc == 1 and "VIOLATION property=%s" % mt["prop"] in out:
                         res = {"status": "caught", "keys": keys[:4]}
+                        if a.replay_test:
+                            paths = [l.split("replay=")[1].strip() for l in out.splitlines() if l.startswith("VIOLATION")]
+                            rrc, rout = run([os.path.join(HERE, "check"), mt["prop"], "--replay", paths[0]], cwd=HERE, env=env)
+                            env0 = dict(env)
+                            env0.pop("VERIF_REPO")
+                            orc, oout = run([os.path.join(HERE, "check"), mt["prop"], "--replay", paths[0]], cwd=HERE, env=env0)
+                            res["replay_on_mutant_rc"] = rrc
+                            res["replay_on_unchanged_rc"] = orc
                     elif rc == 2:
                         res = {"status": "inconclusive", "detail": [l for l in out.splitlines() if l.startswith("INCONCLUSIVE")][:2]}
                     else:
@@ -255,8 +264,10 @@ def main():
         res["prop"] = mt["prop"]
         res["secs"] = round(time.time() - t0, 1)
         results[mt["id"]] = res
-        print("%-5s %-4s %-16s %5.1fs  %s  %s" % (mt["id"], mt["prop"], res["status"], res["secs"], mt["note"][:60],
-                                                  (res.get("keys") or [""])[0][:90]))
+        print("%-5s %-4s %-16s %5.1fs  %s  %s %s" % (mt["id"], mt["prop"], res["status"], res["secs"], mt["note"][:60],
+                                                     (res.get("keys") or [""])[0][:90],
+                                                     ("replay(mutant)=%s replay(unchanged)=%s" % (res.get("replay_on_mutant_rc"), res.get("replay_on_unchanged_rc")))
+                                                     if "replay_on_mutant_rc" in res else ""))
         sys.stdout.flush()
         json.dump(results, open(a.out, "w"), indent=1, sort_keys=True)
     shutil.rmtree(evdir, ignore_errors=True)
